@@ -388,7 +388,10 @@ class Repo:
                     continue
                 break
             if mname in ci.assigns and mname not in ci.aliases:
-                return None  # bound to a non-function value in this class
+                v = ci.assigns[mname]
+                if follow_alias and isinstance(v, ast.Attribute) and isinstance(v.value, ast.Name) and v.value.id in self.classes and v.value.id != ci.name:
+                    return self.method(v.value.id, v.attr)  # `__hash__ = Other.__hash__`
+                return None  # bound to a non-function value in this class (a builtin's method, None, ...)
         return None
 
     def need_method(self, cname: str, mname: str) -> FuncInfo:
